@@ -5,6 +5,8 @@ Property theorems only.
 import ElysModel.Lemmas.GenTie
 import ElysModel.Gen.Arith.feeRatio
 import ElysModel.Gen.Arith.calcPoolSharesOutGivenSingleAssetIn
+import ElysModel.Gen.Arith.exitPoolGuards
+import ElysModel.Gen.Arith.Table
 import ElysModel.Amm.SingleSided
 namespace Elys.Amm.C05Src
 open Elys Elys.Amm
@@ -23,5 +25,19 @@ theorem gen_singleAssetJoin (bal w totalW S amt fee : Int) (h0 : totalW ≠ 0) :
   simp only [h0, if_false]
   have hf : ∀ a b, Gen.Arith.feeRatio a b = feeRatio a b := fun _ _ => rfl
   simp only [hf, gen_solveCFI_eq, bind_assoc, pure_bind]
+
+/-- the guards in front of an exit's effects (x/amm/keeper/keeper_exit_pool.go `ExitPool`), as the source has them now: an exit
+goes on only for a share amount strictly between 0 and the pool's total shares — nobody can redeem the whole pool (and so
+divide by a zero share supply afterwards), and a non-positive amount is refused — whatever the pool arithmetic then returns. -/
+theorem gen_exit_share_range (poolId shares mins : Int) (denom : String) (liq found : Bool) (total coins : Int) (err : Bool)
+    (h : Gen.Arith.exitPoolGuards poolId shares mins denom liq found total coins err = .ok true) :
+    found = true ∧ 0 < shares ∧ shares < total ∧ err = false := by
+  unfold Gen.Arith.exitPoolGuards at h
+  cases found <;> cases err <;> simp at h
+  all_goals by_cases h1 : shares ≥ total <;> simp [h1] at h
+  all_goals by_cases h2 : shares ≤ 0 <;> simp [h2] at h
+  exact ⟨rfl, by omega, by omega, rfl⟩
+
+theorem gen_free_exitPool : (Gen.Arith.freeOf "exitPoolGuards").take 2 = ["#0.GetPool(#1, #3)#1", "#0.GetPool(#1, #3).GetTotalShares().Amount"] := by decide
 
 end Elys.Amm.C05Src
